@@ -17,6 +17,7 @@ from .._exceptions import (
     ConnectionNotAvailable,
     LocalProtocolError,
     RemoteProtocolError,
+    map_exceptions,
 )
 from .._models import Origin, Request, Response
 from .._synchronization import AsyncLock, AsyncSemaphore, AsyncShieldCancellation
@@ -295,7 +296,8 @@ class AsyncHTTP2Connection(AsyncConnectionInterface):
         headers = []
         for k, v in event.headers:
             if k == b":status":
-                status_code = int(v.decode("ascii", errors="ignore"))
+                with map_exceptions({ValueError: RemoteProtocolError}):
+                    status_code = int(v.decode("ascii", errors="ignore"))
             elif not k.startswith(b":"):
                 headers.append((k, v))
 
